@@ -66,7 +66,7 @@
 EXTENDS Integers, Sequences, FiniteSets, TLC
 
 CONSTANTS Dev,        \* named deviations (non-vacuity of the properties; {} = the rules)
-          Scenarios   \* scenario universe of the design check
+          Scenarios   \* scenario universe (MCDial.tla gives the design check its own Init over parts)
 
 VARIABLES
   scen,                 \* the scenario, fixed during a behaviour
